@@ -159,7 +159,7 @@ func kConc(args []string) (string, string) {
 			}
 		}
 	}
-	gen := &lockedNames{dir: dir}
+	gen := &lockedNames{dir: dir, fixed: cfg["fixedname"] == "t"}
 	wopts := []gowarc.WarcFileWriterOption{
 		gowarc.WithMaxFileSize(max), gowarc.WithCompression(comp), gowarc.WithFileNameGenerator(gen),
 		gowarc.WithMaxConcurrentWriters(k), gowarc.WithMarshaler(cm), gowarc.WithExpectedCompressionRatio(0.5),
@@ -314,8 +314,9 @@ func kConc(args []string) (string, string) {
 	if hang != "" {
 		return "returned=not-all open=?", "VIOL c10-hang calls_did_not_return:" + hang
 	}
-	if rmdirAt[0] >= 0 {
-		// the files are gone with their directory (an environment fault): only the clause that every call returns is judged
+	if rmdirAt[0] >= 0 || gen.fixed {
+		// the files are gone with their directory (an environment fault), or every file gets the same name (a generator
+		// without serial: creating the second file fails): only the clause that every call returns is judged
 		ncalls := 0
 		for _, l := range calls {
 			for _, c := range l {
@@ -476,15 +477,19 @@ func (m *concMarshaler) hadCont(tok int) bool {
 
 // lockedNames is a name generator that is safe for concurrent use (C11 covers PatternNameGenerator)
 type lockedNames struct {
-	mu  sync.Mutex
-	dir string
-	n   int
+	mu    sync.Mutex
+	dir   string
+	n     int
+	fixed bool // a generator whose pattern has no serial: the same name every time (a second file collides with the first)
 }
 
 func (g *lockedNames) NewWarcfileName() (string, string) {
 	g.mu.Lock()
 	defer g.mu.Unlock()
 	g.n++
+	if g.fixed {
+		return g.dir, "w-fixed.warc"
+	}
 	return g.dir, fmt.Sprintf("w-%04d.warc", g.n)
 }
 
@@ -494,7 +499,19 @@ func genConc(r *rng, n int, tier string, emit func(string, ...string)) {
 	for i := 0; i < n; i++ {
 		k := r.rangeInt(1, 3)
 		cfg := fmt.Sprintf("k=%d;comp=%s;max=%d;info=%s", k, tf(r.chance(1, 2)), pick(r, []int{0, 600, 1500}), tf(r.chance(1, 2)))
-		switch r.intn(10) {
+		switch r.intn(11) {
+		case 10: // a name generator that hands out the same name every time: the second file cannot be created; every call returns
+			kk := r.rangeInt(2, 3)
+			cfg = fmt.Sprintf("k=%d;comp=%s;max=%d;info=%s;fixedname=t", kk, tf(r.chance(1, 2)), pick(r, []int{0, 600}), tf(r.chance(1, 2)))
+			var progs, steer []string
+			for c := 0; c < kk; c++ {
+				t, t2 := next(), next()
+				progs = append(progs, fmt.Sprintf("W%d,W%d", t, t2))
+				steer = append(steer, fmt.Sprintf("sleep:%d:3000", t))
+			}
+			progs = append(progs, pick(r, []string{"S20000,C", "S20000,R,C", "S5000,R,S20000,C"}))
+			emit("conc", cfg, strings.Join(progs, "/"), strings.Join(steer, ";"))
+			stat("conc-scenario", "name-collision")
 		case 9: // the output directory disappears: every worker's final close/rename fails; Close, Rotate and later Writes still return
 			kk := r.rangeInt(2, 3)
 			cfg = fmt.Sprintf("k=%d;comp=%s;max=%d;info=%s", kk, tf(r.chance(1, 2)), pick(r, []int{0, 1500}), tf(r.chance(1, 2)))
